@@ -70,6 +70,8 @@ def run_unit(uid, timeout_ms=10000):
     reason = ""
     used_models, used_summaries, inlined, dropped, notes = set(), set(), set(), [], set()
 
+    core.TOUCHED_FIELDS.clear()
+
     def one_path(ctx):
         # module-level and class-level values of the repository (incl. MUTABLE ones: a dict used as a class-wide cache) start fresh on every path,
         # as in a fresh interpreter process - nothing leaks from another path or unit
@@ -148,8 +150,11 @@ def run_unit(uid, timeout_ms=10000):
                 ok = True
                 break
         covers[name] = ok
+    known = known_attribute_names()
+    harness_only = sorted(k for k in core.TOUCHED_FIELDS if isinstance(k, str) and k not in known)
     return {
         "unit": uid,
+        "harness_only_fields": harness_only,
         "property": u.prop,
         "doc": u.doc,
         "status": status,
@@ -168,3 +173,41 @@ def run_unit(uid, timeout_ms=10000):
         "gen_s": round(gen_s, 3),
         "solver_s": round(solver_s, 3),
     }
+
+
+_KNOWN_ATTRS = {}
+
+
+def known_attribute_names():
+    """every identifier that occurs in the repository's source as an attribute name, a class-level name, a parameter / keyword name or an identifier-like
+    string constant (getattr / __slots__): the names an object's representation can consist of"""
+    import ast
+    import os
+    root = os.path.join(os.environ.get("VERIF_REPO", "/repo"), "liesel")
+    if root in _KNOWN_ATTRS:
+        return _KNOWN_ATTRS[root]
+    names = set()
+    for d, _dirs, files in os.walk(root):
+        for fn in files:
+            if not fn.endswith(".py"):
+                continue
+            try:
+                with open(os.path.join(d, fn)) as fh:
+                    tree = ast.parse(fh.read())
+            except (OSError, SyntaxError):
+                continue
+            for n in ast.walk(tree):
+                if isinstance(n, ast.Attribute):
+                    names.add(n.attr)
+                elif isinstance(n, ast.Name):
+                    names.add(n.id)
+                elif isinstance(n, ast.arg):
+                    names.add(n.arg)
+                elif isinstance(n, ast.keyword) and n.arg:
+                    names.add(n.arg)
+                elif isinstance(n, ast.Constant) and isinstance(n.value, str) and n.value.isidentifier():
+                    names.add(n.value)
+                elif isinstance(n, (ast.FunctionDef, ast.ClassDef)):
+                    names.add(n.name)
+    _KNOWN_ATTRS[root] = names
+    return names
